@@ -7,7 +7,12 @@ no other use and then returned on the next statement,
     result = <expr>
     return result
 
-is the same program as ``return <expr>``; the normal form is the latter.  Nodes keep their
+is the same program as ``return <expr>``; the normal form is the latter.  Likewise
+
+    flag = <expr>
+    if flag:            (or ``if not flag:``)
+
+with no other use of ``flag`` is normalised to ``if <expr>:``.  Nodes keep their
 line numbers (the ``return`` takes the line of the assignment), so reports still point at the
 source.  Nothing else is rewritten: branch polarity, early exits and loops are handled by the
 rules themselves (guards_of / the CFG).
@@ -64,6 +69,21 @@ def _fold_block(func: ast.AST, body: List[ast.stmt]) -> List[ast.stmt]:
             out.append(folded)
             index += 2
             continue
+        if (
+            target is not None
+            and isinstance(following, ast.If)
+            and _uses(func, target) == 2
+            and not isinstance(stmt.value, ast.Constant)  # type: ignore[union-attr]
+        ):
+            test = following.test
+            negated = isinstance(test, ast.UnaryOp) and isinstance(test.op, ast.Not)
+            inner = test.operand if negated else test  # type: ignore[union-attr]
+            if isinstance(inner, ast.Name) and inner.id == target:
+                value = stmt.value  # type: ignore[union-attr]
+                following.test = ast.copy_location(ast.UnaryOp(op=ast.Not(), operand=value), value) if negated else value
+                out.append(following)
+                index += 2
+                continue
         out.append(stmt)
         index += 1
     return out
